@@ -164,6 +164,9 @@ def r4_1(ctx, R, otypes):
                 ok = newv[0] == "call" and "Wrapping<usize> as core::ops::Add" in (newv[1] or "") and \
                     any(a[0] == "agg" and a[1].endswith("Wrapping::Wrapping") and a[2][0][0] == "const" and a[2][0][2] == "1" for a in newv[2])
                 ok = ok and strip_refs(newv[2][0]) == strip_refs(idx[1][2][0]) or (ok and _same_capture(newv[2][0], idx[1][2][0]))
+            if not ok:
+                ok, det2 = _explicit_counter_step(ctx, b, fl, bb, paths)
+                det += "; explicit form: " + det2
             n += 1
             kinds.setdefault("from_iter", 0)
             kinds["from_iter"] += 1
@@ -189,7 +192,25 @@ def r4_1(ctx, R, otypes):
             ctx.ob("R4.1", b, "push-front:index=outgoing(after -1 exactly once)", once and after and not other, b.loc(bb),
                    "outgoing=%s; -1 sites %s; once-per-path=%s; read-after-dec=%s; other counter updates=%s" % (
                        ctr, [b.loc(x) for x in dec_sites], once, after, [b.loc(x) for x in other]))
-    ctx.floor("R4.1", "wrapper-constructions", n, 6)
+    # the output wrapper built by the future wrapper's own poll (written as a match or as Poll::map -- the combinator is
+    # expanded in place) carries over that future's index
+    for b in ctx.facts.fn_bodies():
+        if not re.search(r"^<%s<.*> as futures_core::Future>::poll$" % re.escape(WRAP), b.path):
+            continue
+        fl = ctx.flow(b)
+        for bb in range(b.n):
+            if b.is_cleanup(bb):
+                continue
+            for s_ in b.stmts(bb):
+                if s_["k"] == "assign" and s_["rv"]["k"] == "aggregate" and s_["rv"].get("adt") == WRAP:
+                    e = fl.rvalue_expr(s_["rv"], bb)
+                    ie = strip_refs(e[2][e[3].index("index")])
+                    ok = ie[0] == "proj" and ie[2] and ie[2][-1] == ".index" and strip_refs(ie[1]) == ("param", 1)
+                    n += 1
+                    kinds["carry"] = kinds.get("carry", 0) + 1
+                    ctx.ob("R4.1", b, "output-wrapper-carries-its-future's-index", ok, b.loc(bb), expr_str(ie))
+    ctx.floor("R4.1", "wrapper-constructions", n, 7)
+    ctx.ob("R4.1", "<crate>", "output wrapper built by the future wrapper's poll", kinds.get("carry", 0) >= 1, "", str(kinds))
     ctx.ob("R4.1", "<crate>", "siblings: back/front/from_iter builders per ordered type",
            kinds.get("back", 0) >= 2 and kinds.get("front", 0) >= 2 and kinds.get("from_iter", 0) >= 2, "", str(kinds))
     # for the bounded variant the counter update lives in the closure handed to the slot-map insertion: it runs only on acceptance
@@ -219,6 +240,75 @@ def r4_1(ctx, R, otypes):
                                         inc_ok = True
                     ctx.ob("R4.1", b, "from_iter:incoming=count,outgoing=0", bool(zero) and inc_ok, b.loc(rb),
                            "outgoing=%s incoming=%s" % (expr_str(ops[o]) if o else None, expr_str(ops[i]) if i else None))
+
+
+def _explicit_counter_step(ctx, b, fl, agg_bb, paths):
+    """FromIterator numbering closure written without mem::replace: the index operand is read from the captured counter
+    (*(*_1).k) at a statement that precedes the only update of that counter, the update happens exactly once on every
+    return path and stores <captured counter> + Wrapping(1) (or is `counter += 1`)."""
+    pos = _read_pos(b, fl, agg_bb)
+    if pos is None:
+        return False, "index operand is not read from a place"
+    rbb, ri, rplace = pos
+    pe = fl.place_expr(rplace)
+    if not (pe[0] == "proj" and strip_refs(pe[1]) == ("param", 1) and b.kind == "Closure"):
+        return False, "index not read from a capture: %s" % expr_str(pe)
+    elems = tuple(el for el in pe[2])
+    while elems and elems[-1] == ".0" and len(elems) > 3:
+        elems = elems[:-1]
+    cap = ("proj", pe[1], elems)
+
+    def is_cap(x):
+        x = strip_refs(x)
+        return x[0] == "proj" and strip_refs(x[1]) == ("param", 1) and tuple(x[2]) == elems
+    ups = []
+    for sbb, si, st in fl.stores:
+        if si == "term":
+            if is_cap(fl.place_expr(st["dest"])):
+                ups.append((sbb, 10 ** 6, False))
+            continue
+        if is_cap(fl.place_expr(st["place"])):
+            v = fl.rvalue_expr(st["rv"], sbb)
+            good = v[0] == "call" and "Wrapping<usize> as core::ops::Add" in (v[1] or "") and is_cap(v[2][0]) and \
+                v[2][1][0] == "agg" and v[2][1][1].endswith("Wrapping::Wrapping") and v[2][1][2][0][0] == "const" and v[2][1][2][0][2] == "1"
+            ups.append((sbb, si, good))
+    for sbb, t, fn in direct_sites(b, RE_ADD_ASSIGN):
+        if is_cap(fl.operand_expr(t["args"][0])):
+            a1 = fl.operand_expr(t["args"][1])
+            good = a1[0] == "const" and a1[2] == "1"
+            ups.append((sbb, 10 ** 6, good))
+    if not ups:
+        return False, "captured counter never updated"
+    once = bool(paths) and all(sum(1 for y in p for (sbb, si, g) in ups if sbb == y) == 1 for p in paths)
+    good = all(g for _, _, g in ups)
+    before = all((b.dominates(rbb, sbb) and (rbb != sbb or ri < si)) for sbb, si, _ in ups)
+    return once and good and before, "updates %s; once-per-path=%s; +1=%s; read-before-update=%s" % ([b.loc(x[0]) for x in ups], once, good, before)
+
+
+def _read_pos(body, fl, agg_bb):
+    """(block, statement index, place) of the statement that reads memory for the wrapper's index operand."""
+    for i0, s in enumerate(body.stmts(agg_bb)):
+        if s["k"] == "assign" and s["rv"]["k"] == "aggregate" and s["rv"].get("adt") == WRAP:
+            op = s["rv"]["ops"][s["rv"]["fields"].index("index")]
+            cur = (agg_bb, i0)
+            for _ in range(8):
+                if op["k"] not in ("copy", "move"):
+                    return None
+                if any(e["k"] == "deref" for e in op["place"]["p"]):
+                    return cur[0], cur[1], op["place"]
+                sd = fl.single_def(op["place"]["l"])
+                if sd in (None, "param") or sd[2] != "assign":
+                    return None
+                rv = sd[3]["rv"]
+                if rv["k"] != "use":
+                    return None
+                cur = (sd[0], sd[1])
+                suffix = op["place"]["p"]
+                op = rv["op"]
+                if op["k"] in ("copy", "move") and suffix:
+                    op = dict(op, place=dict(op["place"], p=list(op["place"]["p"]) + list(suffix)))
+            return None
+    return None
 
 
 def _same_capture(a, b):
